@@ -72,7 +72,7 @@ def build(release=False, hooks=True, need_api=False):
         if rc != 0:
             b.gen_ok = False
             b.gen_msg = out.strip()
-        if need_api:
+        if need_api and os.path.exists(os.path.join(ROOT, "tools", "gen_api.py")):
             rc, out = sh([sys.executable, os.path.join(ROOT, "tools", "gen_api.py")], timeout=300)
             if rc != 0:
                 b.gen_ok = False
